@@ -28,6 +28,7 @@ func checkC02(c *Ctx) {
 	c.Rule("C02/R9", "measurements: each measurement is recorded under Tidy's unit with the pair as written kept alongside exactly when the unit was rewritten (string comparison of the units; same rule as C04/R1)")
 	c.Rule("C02/R8", "file labels: in Files.init an input is counted towards 'same path given more than once' exactly when it carries no explicit label, which is exactly the set of inputs the disambiguation loop may relabel; a labelled input keeps the user's label")
 
+	c.Rule("C02/R13", "separator runs are consumed whole: no return of splitField's stripping loop is feasible while the text handed back begins with white space (six ASCII and three multi-byte samples; conditions on the first byte, the length and unicode.IsSpace answered from the sample)")
 	c.Rule("C02/R12", "key lines: nothing a 'key: value' recogniser tests before decoding the first character rejects a line that begins with a lower-case letter (evaluated for ASCII letters and the lead bytes of multi-byte lower-case letters)")
 	p := mustLoad(c, loadOpts{}, "./benchfmt", "./storage/benchfmt")
 	c03FastFloat(c, p, "C02/R7")
@@ -41,6 +42,7 @@ func checkC02(c *Ctx) {
 	c02Reset(c, p)
 	c02Progress(c, p)
 	c02KeyStart(c, p, "C02/R12")
+	c02Strip(c, p)
 	// R6: reuse the sibling rule
 	sub := newCtx(c.Prop, c.Tier)
 	sub.RepoDir, sub.VerifDir, sub.HomeDir = c.RepoDir, c.VerifDir, c.HomeDir
@@ -1064,4 +1066,89 @@ func c02KeyStart(c *Ctx, p *Prog, R string) {
 		}
 	}
 	c.Floor(R, "first-byte samples over the key recognisers", n, 9)
+}
+
+// c02Strip (C02/R13): after a field, the separator run is consumed whole. No path on which splitField returns can be taken
+// when the text it hands back still begins with white space: evaluated for the six ASCII spaces and for three multi-byte
+// ones (U+0085, U+00A0, U+2003), answering every condition on the first byte, the length and unicode.IsSpace from the sample.
+func c02Strip(c *Ctx, p *Prog) {
+	const R = "C02/R13"
+	fn := p.Fn("benchfmt", "splitField")
+	if fn == nil {
+		c.Undecided(R, "anchor:splitField", "", "not found")
+		return
+	}
+	site := p.pos(fn.Pos())
+	outs, why := regionOutcomes(fn, func() *e6Interp {
+		return &e6Interp{PureCall: func(f *types.Func) bool { return true }}
+	}, 512)
+	if why != "" {
+		c.Undecided(R, "splitField:paths", site, why)
+		return
+	}
+	loopHeader := map[*ssa.BasicBlock]bool{}
+	for _, lp := range naturalLoops(fn) {
+		loopHeader[lp.Header] = true
+	}
+	type sample struct {
+		name  string
+		lead  int64
+		space bool
+	}
+	samples := []sample{{"tab", 9, true}, {"newline", 10, true}, {"vertical tab", 11, true}, {"form feed", 12, true}, {"carriage return", 13, true}, {"blank", 32, true},
+		{"U+0085", 0xC2, true}, {"U+00A0", 0xC2, true}, {"U+2003", 0xE2, true}}
+	n := 0
+	for _, o := range outs {
+		if o.Term != "return" || len(o.Results) != 2 || len(o.Blocks) == 0 || !loopHeader[o.Blocks[0]] {
+			continue
+		}
+		// the slice handed back is a loop variable of this region, unchanged on this path
+		rest := o.Results[1]
+		isLoopVar := false
+		for _, in := range o.Blocks[0].Instrs {
+			if phi, ok := in.(*ssa.Phi); ok {
+				if _, isSl := phi.Type().Underlying().(*types.Slice); isSl && o.Val(phi).String() == rest.String() {
+					isLoopVar = true
+				}
+			}
+		}
+		if !isLoopVar {
+			continue
+		}
+		rs := rest.String()
+		n++
+		for _, sm := range samples {
+			sm := sm
+			leaf := func(s *Sym) (int64, bool) {
+				switch {
+				case s.Op == "call" && s.Name == "len" && len(s.Args) == 1 && s.Args[0].String() == rs:
+					return 3, true
+				case s.Op == "index" && s.Args[0].String() == rs:
+					if i, ok := symInt(s.Args[1], func(*Sym) (int64, bool) { return 0, false }); ok && i == 0 {
+						return sm.lead, true
+					}
+				case s.Op == "load" && s.Args[0].Op == "indexaddr" && s.Args[0].Args[0].String() == rs:
+					if i, ok := symInt(s.Args[0].Args[1], func(*Sym) (int64, bool) { return 0, false }); ok && i == 0 {
+						return sm.lead, true
+					}
+				case s.Op == "call" && strings.HasPrefix(s.Name, "unicode.IsSpace"):
+					if sm.space {
+						return 1, true
+					}
+					return 0, true
+				}
+				return 0, false
+			}
+			feasible := true
+			for k, v := range o.Assign {
+				got, ok := symInt(o.AtomSyms[k], leaf)
+				if ok && (got != 0) != v {
+					feasible = false
+				}
+			}
+			key := fmt.Sprintf("splitField:return#%d:rest-begins-with-%s", n, sm.name)
+			c.Check(!feasible, R, key, site, "this return cannot be taken while the rest still begins with that space", "splitField can return while the text it hands back still begins with "+sm.name+": a separator run that mixes ASCII and multi-byte spaces is only partly consumed, the next field starts with white space, and a well-formed benchmark or Unit line is reported as missing its iteration count, value or unit")
+		}
+	}
+	c.Floor(R, "returns of the separator-stripping loop", n, 2)
 }
